@@ -228,8 +228,11 @@ def addPe (b : Bytes) (name : Bytes) (payload : Bytes) : R Bytes := do
   let al ← align U64 endHdrs fileAlign
   let gap ← sub al endHdrs
   let b ← (if gap < 40 then do
-      let b ← spliceAt b endHdrs (zeros fileAlign)
-      bumpPointers b hdrs fileAlign num 0
+      -- as many whole file alignments as it takes to make room for the 40-byte header (`align(40 - gap, file_alignment)`)
+      let need ← sub 40 gap
+      let bump ← align U64 need fileAlign
+      let b ← spliceAt b endHdrs (zeros bump)
+      bumpPointers b hdrs (bump % U32) num 0
     else .ok b)
   if name.length > 8 then .panic else
   let hdr := name ++ zeros (40 - name.length)
